@@ -13,7 +13,7 @@ EXPORT void fft64_znx_small_single_product(const MODULE* module,  // N
   reim_from_znx64(module->mod.fft64.p_conv, fftb, b);
   reim_fft(module->mod.fft64.p_fft, ffta);
   reim_fft(module->mod.fft64.p_fft, fftb);
-  reim_fftvec_mul_simple(module->m, ffta, ffta, fftb);
+  reim_fftvec_mul(module->mod.fft64.mul_fft, ffta, ffta, fftb);
   reim_ifft(module->mod.fft64.p_ifft, ffta);
   reim_to_znx64(module->mod.fft64.p_reim_to_znx, res, ffta);
 }
